@@ -107,3 +107,18 @@ Definition run_rules (ts : list bytes) : bytes :=
     end
   | None => bad_case
   end.
+
+(* "oasleaf <leaf>" -> the keywords the converter emits for a scalar node: "type=.. minimum=.. exclusiveMinimum=true maximum=.. exclusiveMaximum=true" *)
+From JS Require Import Model.OasSem.
+Definition show_otype (t : otype) : bytes :=
+  match t with OInteger => B"integer" | ONumber => B"number" | OString => B"string" | OBoolean => B"boolean" end.
+Definition run_oasleaf (ts : list bytes) : bytes :=
+  match parse_leaf ts with
+  | Some (l, _) =>
+    let o := to_oas l in
+    join [32%N]
+      ((match o_type o with Some t => [B"type=" ++ show_otype t] | None => [] end) ++
+       (match o_min o with Some (b, e) => (B"minimum=" ++ b) :: (if e then [B"exclusiveMinimum=true"] else []) | None => [] end) ++
+       (match o_max o with Some (b, e) => (B"maximum=" ++ b) :: (if e then [B"exclusiveMaximum=true"] else []) | None => [] end))
+  | None => bad_case
+  end.
